@@ -19,4 +19,10 @@ CLAIMED = {
     "C12": dict(level="exploration", technique=_MON + "invariant monitor: block_quality/max_quality vs reference scores after every operation; skip_to_quality(q)/replace(q) loss checks; leaf block monitor",
                 text="Upper-bound invariants are asserted at every position reached by generated programs with thresholds at/below/above remaining scores, for all shipped weighting models and parameters; on-disk posting blocks are checked entry by entry.",
                 note="Trusted: stepped reference scores; 1e-9 relative slack; models that do not claim quality support are only checked not to claim."),
+    "C02": dict(level="fault_enumeration", technique=_MON + "storage-event tap + crash enumeration: a directory snapshot at EVERY storage event boundary (x3 on-disk prefix variants of open files) re-opened and compared with the old/new state; real-SIGKILL cross-validation",
+                text="Each monitored writer transaction (adds/updates/deletes/schema changes x commit kinds x compound/loose x commit/cancel/exception x writer front-ends) is executed once under the tap; every event boundary yields crash snapshots that must re-open to exactly the old or the new logical state, be searchable and writable, and lose their orphans at the next commit. Exhaustive over the event boundaries of the executed transactions; the thorough tier validates sampled snapshots against directories left by really killed child processes.",
+                note="Crash model = process death (what the statement says): no power loss / torn sectors / directory reordering. MpWriter sub-processes are outside the in-process tap. Trusted: vf/tap.py write-stream model of stdio buffering (cross-checked by the real-kill runs), vf/dump.py."),
+    "C09": dict(level="exploration", technique=_MON + "reference-scorer monitor (formulas re-implemented, inputs re-derived from the corpus model) + composition / constant-score / context / layout differential monitors on real searches",
+                text="Term scores of every shipped weighting model (and a final() hook) are compared with an independent reference for every hit of generated corpora; composite scores are compared with the documented composition of the children's own scores; constant-score queries, terms recording, filters, limits and (without deletions) segment layout must not change a document's score.",
+                note="Trusted: vf/refscore.py (~120 lines) and the documented formulas; rel. tolerance 1e-6; DisjunctionMax tiebreak generated as 0."),
 }
